@@ -383,7 +383,7 @@ def finish(prop, tier, seed, acc, rule, bounds, assumptions, t0, extra_cov=None,
         else:
             c = vclass(v)
             unlisted.setdefault(c, []).append(v)
-    rdir = os.path.join(VERIF, 'replays', prop)
+    rdir = os.path.join(os.environ.get('VERIF_REPLAY_DIR', os.path.join(VERIF, 'replays')), prop)
     os.makedirs(rdir, exist_ok=True)
     lines = []
     for hid, (e, n, v) in sorted(matched.items()):
@@ -430,11 +430,12 @@ def finish(prop, tier, seed, acc, rule, bounds, assumptions, t0, extra_cov=None,
     ev = {'property_id': prop, 'tier': tier, 'seed': seed, 'level': 'model_checking',
           'coverage': cov, 'assumptions': assumptions, 'wall_s': round(time.time() - t0, 2),
           'violations': nclass}
-    os.makedirs(os.path.join(VERIF, 'evidence'), exist_ok=True)
-    tmp = os.path.join(VERIF, 'evidence', prop + '.json.tmp')
+    evdir = os.environ.get('VERIF_EVIDENCE_DIR', os.path.join(VERIF, 'evidence'))   # (seeded-change runs write elsewhere)
+    os.makedirs(evdir, exist_ok=True)
+    tmp = os.path.join(evdir, prop + '.json.tmp')
     with open(tmp, 'w') as f:
         json.dump(ev, f, indent=1, sort_keys=True)
-    os.replace(tmp, os.path.join(VERIF, 'evidence', prop + '.json'))
+    os.replace(tmp, os.path.join(evdir, prop + '.json'))
     for ln in lines:
         print(ln)
     if unlisted:
